@@ -466,6 +466,50 @@ fn dh_part(ctx: &Ctx, thorough: bool) {
                 ctx.violation("dh(a, B) != dh(b, A) for generated key pairs", who, json!({"kind": "dh-gen", "dh": who, "seed": a}));
             }
         }
+        // one Dh object used again: every order of set / generate calls (length <= 3) followed by a DH - the
+        // object must behave as the key it REPORTS (privkey / pubkey consistent, dh computed with that key),
+        // whatever it held before
+        {
+            let peer = alg.pubkey(&crate::exec::key_bytes(6)).unwrap();
+            let keys = [crate::exec::key_bytes(1), crate::exec::key_bytes(2)];
+            for len in 1..=3usize {
+                for code in 0..3usize.pow(len as u32) {
+                    let mut d = mk();
+                    let mut x = code;
+                    let mut trace = vec![];
+                    let mut ok = true;
+                    for step in 0..len {
+                        let a = x % 3;
+                        x /= 3;
+                        if a < 2 {
+                            d.set(&keys[a]);
+                            trace.push(if a == 0 { "set(k1)" } else { "set(k2)" });
+                        } else {
+                            let res = SeamResolver::new(Backend::Default, RngMode::Scripted(7000 + (code * 3 + step) as u64), false, Log::new());
+                            let mut rng = res.resolve_rng().unwrap();
+                            if catch_unwind(AssertUnwindSafe(|| d.generate(&mut *rng))).is_err() {
+                                ok = false; // a panic here is the recorded C10 finding (invalid scalar), not this clause
+                                break;
+                            }
+                            trace.push("generate");
+                        }
+                    }
+                    if !ok {
+                        continue;
+                    }
+                    ctx.add(&ctx.evaluations, 1);
+                    let (sk, pk) = (d.privkey().to_vec(), d.pubkey().to_vec());
+                    let mut out = [0u8; 65];
+                    let r = catch_unwind(AssertUnwindSafe(|| d.dh(&peer, &mut out)));
+                    let want = alg.dh_noise(&sk, &peer);
+                    let consistent = alg.pubkey(&sk) == Some(pk.clone());
+                    let dh_ok = matches!((&r, &want), (Ok(Ok(())), Some(w)) if out[..w.len()] == w[..]);
+                    if !consistent || !dh_ok {
+                        ctx.violation("a reused Dh object does not behave as the key it reports", format!("{who} after {}: key pair consistent: {consistent}, dh with the reported private key: {dh_ok}", trace.join(", ")), json!({"kind": "dh-gen", "dh": who, "seed": code}));
+                    }
+                }
+            }
+        }
         // RFC 7748 iterated ladder (1 and 1000 iterations; 1000 only in thorough)
         if alg == DhAlg::X25519 {
             let iters = if thorough { 1000 } else { 1 };
